@@ -7,10 +7,11 @@ encrypted under another key} x body {Response, Report} and the verdict the prope
 near-miss MACs (every single-bit, xor-cancelling pair, sum-cancelling pair, rotation, reversal, partial MAC).  Every cell is sent,
 as the only reply, to a pending get / get_many / getnext / getbulk on real sockets for {MD5, SHA-1} x {none, DES,
 AES}; TraceSession.tla verifies the MAC term itself (HMAC interpreted by hashlib on the octets TLC zeroed) and
-requires the call to keep waiting unless the reply is authentic."""
+requires the call to keep waiting unless the reply is authentic.  Histories through the public API (discovery datagrams lost,
+refresh retried) check the precondition of all this: the session still acts as the configured user afterwards."""
 import json
 from vlib import env, tlc, trace, corpus, rawdrv, agent as ag, scripts, sesscheck
-from vlib.report import Check
+from vlib.report import Check, confirm_by_replay
 from vlib.env import ToolError, SEED
 
 CFGS = ["v3-md5", "v3-sha1", "v3-md5-des", "v3-sha1-aes", "v3-md5-aes", "v3-sha1-des"]
@@ -126,8 +127,39 @@ def run(tier):
                 runs.append((a, b, dict(cfg=cn, op=op, forgery=dict(mac="valid", flagAuth=True, enc="ok" if std[cn].priv != "none" else "plain",
                                                                      pdu="report" if which.startswith("report") else "response", ids=which), verdict="drop")))
                 chk.case((cn, op, "ids", which))
+    # histories through the public API: a session configured with an auth user must still BE that user after failed / retried
+    # discovery - otherwise every unauthenticated reply is acceptable to it (the socket holds no key at all)
+    import asyncio
+    from checks import c13
+    hist = []
+    for ai, (auth, priv, kt) in enumerate([("md5", "none", "password"), ("sha1", "aes", "password"), ("md5", "des", "master"), ("sha1", "none", "localized")]):
+        for ci, calls in enumerate([["enter", "enter", "get", "get"], ["enter", "refresh", "get"], ["enter", "get", "get"]]):
+            nreq = sum(2 if c == "enter" else 1 for c in calls) + 1
+            for lost in ([0], [1], [0, 2]):
+                plan = [("reply", "A17", (i + 1) % len(c13.CLOCKS)) for i in range(nreq)]
+                for k in lost:
+                    plan[k] = "drop"
+                hist.append((auth, priv, kt, calls, plan, 900 + ai * 20 + ci * 5 + len(lost) + lost[0]))
+    if not thorough:
+        hist = [h for k, h in enumerate(hist) if (k + SEED) % 2 == 0]
+    nraw = len(runs)
+
+    async def hist_async(items):
+        out = []
+        for (auth, priv, kt, calls, plan, i) in items:
+            cfg = c13.make_cfg(auth, priv, kt, c13.ENGINES["A17"], i)
+            a, b = await c13.run_async(rec, cfg, False, calls, plan)
+            out.append((a, b, dict(kind="async", auth=auth, priv=priv, kt=kt, given=False, engine="A17", calls=calls, plan=plan, idx=i, api_history=True)))
+        return out
+    runs += asyncio.run(hist_async(hist[0::2]))
+    for (auth, priv, kt, calls, plan, i) in hist[1::2]:
+        cfg = c13.make_cfg(auth, priv, kt, c13.ENGINES["A17"], i)
+        a, b = c13.run_sync(rec, cfg, False, calls, plan)
+        runs.append((a, b, dict(kind="sync", auth=auth, priv=priv, kt=kt, given=False, engine="A17", calls=calls, plan=plan, idx=i, api_history=True)))
+    for a, b, info in runs[nraw:]:
+        chk.case(("api-history", info["kind"], info["auth"], info["priv"], json.dumps(info["calls"]), json.dumps(info["plan"])))
     rec.close()
-    print("  %d cases, %d events" % (len(runs), rec.n), flush=True)
+    print("  %d cases (%d API histories with lost discovery datagrams), %d events" % (len(runs), len(runs) - nraw, rec.n), flush=True)
     v = trace.validate_parallel("TraceSession.tla", "TraceSession.cfg", rec.events, [(a, b) for a, b, _ in runs], k=12, name="c10")
     for i, r in enumerate(v["results"]):
         chk.add_tlc(r, "TraceSession(c10)#%d" % i)
@@ -138,6 +170,12 @@ def run(tier):
             ri += 1
         a, b, info = runs[ri]
         ev = rec.events[idx]
+        if info.get("api_history"):
+            chk.violation(dict(kind="api-history", client=info["kind"], ev=ev["ev"], op=ev.get("op"), got=ev.get("exc") or "ok"),
+                          "%s session configured with auth=%s priv=%s, calls %s with datagrams %s lost: %s (%s) %s - the session no longer acts as the configured user" %
+                          (info["kind"], info["auth"], info["priv"], info["calls"], [k for k, p in enumerate(info["plan"]) if p == "drop"], ev["ev"], ev.get("op"), ev.get("exc") or ""),
+                          dict(info=info), confirm=confirm_by_replay(c13.replay, dict(info=info)))
+            continue
         f = info["forgery"]
         has_priv = std[info["cfg"]].priv != "none"
         if "ids" in f:
@@ -155,6 +193,12 @@ def run(tier):
 def replay(path):
     d = json.load(open(path))
     info = d["replay"]["info"]
+    if info.get("api_history"):
+        from checks import c13
+        rc = c13.replay(path)
+        if rc == 1:
+            print("VIOLATION property=C10 replay=%s" % path)
+        return rc
     rec = trace.Recorder("c10-replay")
     case(rec, scripts.std_cfgs()[info["cfg"]], ag.Agent(), info["op"], info["forgery"])
     v = trace.validate("TraceSession.tla", "TraceSession.cfg", rec.close())
